@@ -804,6 +804,14 @@ hdf_xdr_NCvdata(NC *handle, NC_var *vp, unsigned long where, nc_type type, uint3
          */
         if (vp->data_ref == 0) {
             if (handle->hdf_mode == DFACC_RDONLY) {
+                /* only a read can be answered with fill values: a write to a
+                   data set without data in a read-only file is refused, and
+                   the caller's buffer is left alone */
+                if (handle->xdrs->x_op != XDR_DECODE) {
+                    ret_value = FAIL;
+                    goto done;
+                }
+
                 if (vp->data_tag == DATA_TAG || vp->data_tag == DFTAG_SDS) {
                     if ((attr = NC_findattr(&vp->attrs, _FillValue)) != NULL)
                         HDmemfill(values, (*attr)->data->values, vp->szof, count);
